@@ -60,7 +60,10 @@ def run_case(params, prefix):
             if bad:
                 fails.append((base + "|status", f"steps of the original workflow not COMPLETED: {bad}"))
         if res.get("pending_after_run"):
-            fails.append((base + "|pending", f"tasks pending at quiescence (a recovery left waiting): {res['pending_after_run'][:6]}"))
+            key = base + "|pending"
+            if res.get("raised") and run_ is not None and _recov.producer_failed_during_recovery(params["spec"], run_):
+                key = f"C16|pending|cause=producer-fails-while-being-re-executed-for-concurrent-recoveries|prog={params['spec']['prog']}"
+            fails.append((key, f"tasks pending at quiescence (a recovery left waiting): {res['pending_after_run'][:6]}"))
     return _recov.make_outcome(ex, res, fails)
 
 
